@@ -53,6 +53,7 @@ class TracepointConfigService:
     def __init__(self) -> None:
         """Create new tracepoint config service."""
         self._custom: List['Trigger'] = []
+        self._custom_ids: Dict[str, 'Trigger'] = {}
         self._tracepoint_config: List['Trigger'] = []
         self._current_hash = None
         self._last_update = 0
@@ -168,10 +169,15 @@ class TracepointConfigService:
         :param metrics: the tracepoint metrics
         :return: the new TracePointConfig
         """
-        config = build_trigger(str(uuid.uuid4()), path, line, args, watches, metrics)
+        custom_id = str(uuid.uuid4())
+        config = build_trigger(custom_id, path, line, args, watches, metrics)
+        if config is None:
+            raise ValueError("Cannot create tracepoint for %s:%s with args %s" % (path, line, args))
         self._custom.append(config)
+        # the id identifies this registration (and not the location, which other registrations can share)
+        self._custom_ids[custom_id] = config
         self.__trigger_update(None, None)
-        return config.id
+        return custom_id
 
     def remove_custom(self, _id: str):
         """
@@ -179,8 +185,11 @@ class TracepointConfigService:
 
         :param _id: the id of the config to remove
         """
+        config = self._custom_ids.pop(_id, None)
+        if config is None:
+            return
         for idx, cfg in enumerate(self._custom):
-            if cfg.id == _id:
+            if cfg is config:
                 del self._custom[idx]
                 self.__trigger_update(None, None)
                 return
